@@ -14,9 +14,15 @@ func ToNTP(t time.Time) uint64 {
 	// seconds since 1st January 1900
 	s := (float64(t.UnixNano()) / 1000000000) + 2208988800
 
-	// higher 32 bits are the integer part, lower 32 bits are the fractional part
-	integerPart := uint32(s)
-	fractionalPart := uint32((s - float64(integerPart)) * 0xFFFFFFFF)
+	// higher 32 bits are the integer part, lower 32 bits are the fractional part.
+	// The integer part is taken from the time itself: in the last quarter
+	// microsecond of a second s rounds up to the next integer, which moved a
+	// timestamp just before the end of a 65536-second window into the next
+	// window and one just before the end of the NTP era to 2^32, which does not
+	// fit the integer part (the timestamp wrapped to zero).
+	seconds := t.Unix() + 2208988800
+	integerPart := uint32(seconds) //nolint:gosec // G115
+	fractionalPart := uint32((s - float64(seconds)) * 0xFFFFFFFF)
 
 	return uint64(integerPart)<<32 | uint64(fractionalPart) //nolint:gosec // G115
 }
